@@ -10,22 +10,26 @@ import numpy as np
 LEVEL = "proof"
 MANIFEST_ENTRY = {
     "category": "proof",
-    "text": "Lean 4 theorems over an executable model (generic numeric carrier, defining DFT sums) of the ptychography forward-model operators: index_add scatter is the exact adjoint of patch gathering for every index list (repeats, wrap); phase ramps and Fresnel kernels have unit modulus, compose additively and invert; Fourier shift and propagation preserve total intensity (Parseval for the modelled DFT, proved from root-of-unity orthogonality); integer shifts equal circular rolls; pure-phase multislice exit waves carry the probe's total intensity for any number of slices/modes; the Fourier magnitude projection is idempotent and returns exactly the measured amplitudes (single state everywhere, mixed state wherever the current far field is non-zero). Every run ties the model to the code by an exact integer stream (gather/scatter, integer shifts) and a float stream (translation operator, shift, propagators, propagation, multislice overlap, detector, projection) and evaluates the identities on the real functions.",
-    "note": "Trusted: Lean kernel + propext/Classical.choice/Quot.sound; torch/NumPy FFT assumed to compute the defining sums (exercised by every float case); IEEE rounding outside the theorems (measured: float32 fftfreq/complex64 propagators limit translation/propagation identities to ~1e-6, 5e-4 rule). Mixed-state exactness is undecidable at pixels whose current far field is exactly zero (code defines the output as 0 there). Real-valued inputs of fourier_shift_expand (the `.real` branch) are covered by correspondence only — the property quantifies over complex arrays.",
-    "technique": "Lean 4 proof (Finset sum rearrangement, roots of unity, induction on slices) + model-vs-implementation correspondence",
+    "text": "Lean 4 theorems over an executable model (generic numeric carrier, defining DFT sums) of the ptychography forward-model operators: index_add scatter is the exact adjoint of patch gathering for every index list (repeats, wrap) - also for the model WITH torch's argument checks and the partial writes of index_add_ before an IndexError, in every history of accepted and rejected calls (adjoint_checked, adjoint_history, rejected_calls_erasable, scatter_checked_ok_iff); phase ramps and Fresnel kernels have unit modulus, compose additively and invert; Fourier shift and propagation preserve total intensity (Parseval for the modelled DFT, proved from root-of-unity orthogonality); integer shifts equal circular rolls; pure-phase multislice exit waves carry the probe's total intensity for any number of slices/modes, and back-transmitting / back-propagating them through the chain of ObjectPixelated.backward returns the entrance wave (backward_forward_identity); the Fourier magnitude projection is idempotent and returns exactly the measured amplitudes (single state everywhere incl. exactly vanishing Fourier coefficients, mixed state wherever the current far field is non-zero); reset_recon restores the object constraints after every history of accepted / rejected (partially written) constraint updates, and the class-level defaults never change (reset_restores_defaults, defaults_never_change, rejected_add_is_noop, reset_modulus_neutral). Every run ties the model to the code by exact integer streams (gather/scatter, integer shifts, call histories with raising calls, constraint-dictionary sessions) and float streams (translation operator, shift, propagators, propagation, multislice overlap, backward chain, detector, estimate_amplitudes/intensities, projection) and evaluates the identities on the real functions, on real Ptychography instances, over call histories with kept results, raising calls, in-place updated argument objects and reset/configure/reset sessions.",
+    "note": "Trusted: Lean kernel + propext/Classical.choice/Quot.sound; torch/NumPy FFT assumed to compute the defining sums (exercised by every float case); IEEE rounding outside the theorems (measured: float32 fftfreq/complex64 propagators limit translation/propagation identities to ~1e-6, 5e-4 rule). Mixed-state exactness is undecidable at pixels whose current far field is exactly zero (code defines the output as 0 there); for a constant mixed-state exit wave idempotence is evaluated in the far field at the other pixels (the operator is discontinuous at far field = 0 and rounding refills exact zeros). Real-valued inputs of fourier_shift_expand (the `.real` branch) are covered by correspondence only - the property quantifies over complex arrays. Measured only: that modulus-neutral constraints (the gates of apply_hard_constraints, modelled as a predicate on the constraint dictionary) give unit-modulus patches - apply_hard_constraints itself belongs to C10's model; absence of hidden state / aliasing in the real code (history, rhist, session streams). Formula code is tied by correspondence + independent oracles, not by mechanical translation.",
+    "technique": "Lean 4 proof (Finset sum rearrangement, roots of unity, induction on slices / call histories / constraint sessions) + model-vs-implementation correspondence",
 }
-RULE = ("a case is one generated input pushed through one real operator (and the model); distinct non-trivial = distinct "
-        "(stream, row parity, col parity, square?, #modes, #slices, index kind / shift kind / amplitude kind) with at least 3x3 pixels "
-        "or a non-empty index list")
-TRUSTED = ["torch.fft / numpy.fft compute the defining DFT sums; torch index_add_ and advanced indexing (modelled, sampled)",
-           "fourier_translation_operator evaluates `-2j*pi*fftfreq` in float32/complex64 even for float64 positions, propagators are complex64: integer-shift = roll and the propagation identities hold to float32 accuracy only (5e-4 rule; measured ~4e-6, values in `measured`)"]
+RULE = ("a case is one generated input (or call history / session) pushed through the real operator(s) and the model; distinct non-trivial = distinct "
+        "(stream, row parity, col parity, square?, #modes, #slices, index kind / shift kind / amplitude kind / value class / history kinds / session op sequence) "
+        "with at least 1x1 pixels or a non-empty index list; the fixed blocks (proj 36, rhist 14, session 45 cases) are the same for every seed")
+TRUSTED = ["torch.fft / numpy.fft compute the defining DFT sums; torch index_add_ (sequential accumulation, IndexError at the first index outside [0,n) after partial writes, RuntimeError on a length mismatch) and advanced indexing (negative indices wrap once) - modelled, sampled",
+           "fourier_translation_operator evaluates `-2j*pi*fftfreq` in float32/complex64 even for float64 positions, propagators are complex64: integer-shift = roll and the propagation identities hold to float32 accuracy only (5e-4 rule; measured ~4e-6, values in `measured`)",
+           "Python dict semantics of the constraint dictionaries (insertion order, key-by-key writes, KeyError after partial writes) - modelled, sampled by the session stream"]
 ASSUMPTIONS = [
     "one model call handles one batch element; the batch/mode broadcasting of the torch code is exercised by the harness looping over the batch",
-    "`self` of every Ptychography/Probe method is a real preprocessed Ptychography object from props/ptycho_tiny.py: bound calls where the instance fits (projection, forward_operator, detector, patches), and for multislice / arbitrary-physics cases an unbound call on a `Borrow` of a real instance that overrides only num_slices, _propagators (resp. roi_shape, probe_params, probe_tilt of the probe model); bare attribute stubs are used only if the factory itself fails (counted as self=bare-stub / stub-insufficient)",
-    "the `history` stream checks the no-hidden-state contract that the identities presuppose (results never change after they are returned, inputs are not modified, results of different calls do not share storage) by keeping the results of 2-4 same-shaped calls of every operator and re-evaluating the identities on ALL of them; the heap-free Lean model cannot express aliasing, so this part is measured only",
+    "`self` of every Ptychography/Probe method is a real preprocessed Ptychography object from props/ptycho_tiny.py: bound calls where the instance fits (projection, forward_operator, detector, patches, reset_recon, constraints), and for multislice / arbitrary-physics cases an unbound call on a `Borrow` of a real instance that overrides only num_slices, _propagators (resp. roi_shape, probe_params, probe_tilt of the probe model); bare attribute stubs are used only if the factory itself fails (counted as self=bare-stub / stub-insufficient)",
+    "PRIVATE helpers (_get_obj_patches, _propagate_array x2, _compute_propagator_arrays, obj_model._obj, _propagators) are resolved by name defensively: if a name is gone the entry-point sub-stream is skipped or served by a flagged public / definitional fallback (evidence: coverage.private_names_missing, dist skipped:private-name-gone:*); the public-API streams (sum_patches, fourier_shift_expand, fourier_translation_operator, overlap_projection, forward_operator, DetectorPixelated.forward, fourier_projection, gradient_step, estimate_*, reset_recon, constraints) stay authoritative",
+    "public signatures / defaults of the anchored operators are pinned (listed parameters in order with their defaults; further parameters with defaults are tolerated)",
+    "the `history` stream checks the no-hidden-state contract that the identities presuppose (results never change after they are returned, inputs are not modified, results of different calls do not share storage) by keeping the results of 2-4 same-shaped calls of every operator and re-evaluating the identities on ALL of them; the `rhist` stream does the same across calls that RAISE (index outside the grid after in-range entries, index set of a larger grid, negative index, length / shape mismatch) and across in-place updates of the same argument objects; the heap-free Lean model cannot express aliasing, so this part is measured only",
+    "the `session` stream evaluates the energy clause only where the Lean session model says the constraints in force keep the modulus of a pure-phase object (after reset_recon, on a fresh model, or modulus-neutral settings); what a user-set blur / Butterworth filter does to the modulus is not C16's business",
     "an exception that escapes the real code on a valid input is reported as a predicate failure (key raises:<stream>:<type>) with that input",
     "mixed-state exactness predicate is evaluated only at pixels whose input far field is not exactly zero",
-    "negative flat indices are outside the stated domain (torch indexing wraps them, index_add_ rejects them)",
+    "negative flat indices: torch indexing wraps them, index_add_ rejects them - modelled (gatherChecked / indexAddSeq) and compared, but outside the stated domain of the adjoint clause",
 ]
 EXPLANATION = ("Theorems in Props/C16.lean are about Model/PtychoOps.lean at the real-number instance; every run pushes the same inputs "
                "through the real torch/NumPy code and the Lean model (exactly on integers, to tolerance on floats) and evaluates each "
@@ -47,6 +51,51 @@ def _imports():
     from quantem.core.utils.utils import electron_wavelength_angstrom
     return types.SimpleNamespace(torch=torch, pu=pu, Det=DetectorPixelated, Obj=ObjectBase, Probe=ProbeBase,
                                  Pty=Ptychography, Base=PtychographyBase, wl=electron_wavelength_angstrom)
+
+
+# private helpers the harness reaches by NAME: a harmless refactoring may rename / inline / move them.  They are
+# resolved defensively: a missing name never crashes or alarms; the entry-point sub-stream is skipped (or served by an
+# explicitly flagged public / definitional fallback) and the fact is written into the evidence.
+PRIVATE_NAMES = {"ObjectBase._get_obj_patches": ("Obj", "_get_obj_patches"),
+                 "PtychographyBase._propagate_array": ("Base", "_propagate_array"),
+                 "ObjectBase._propagate_array": ("Obj", "_propagate_array"),
+                 "ProbeBase._compute_propagator_arrays": ("Probe", "_compute_propagator_arrays")}
+
+
+def resolve_private(I, ctx):
+    I.priv = {}
+    missing = []
+    for key, (owner, name) in PRIVATE_NAMES.items():
+        f = getattr(getattr(I, owner), name, None)
+        I.priv[key] = f if callable(f) else None
+        if I.priv[key] is None:
+            missing.append(key)
+    ctx.extra["private_names_missing"] = missing
+    ctx.extra["private_names_resolved"] = sorted(k for k in I.priv if I.priv[k] is not None)
+    return I
+
+
+def skip_private(ctx, what):
+    ctx.dist[f"skipped:private-name-gone:{what}"] += 1
+
+
+def get_patches(I, ctx, obj_t, idx_t):
+    """ObjectBase._get_obj_patches; if that private helper is gone: the definitional extraction (flagged)"""
+    f = I.priv["ObjectBase._get_obj_patches"]
+    if f is not None:
+        return f(None, obj_t, idx_t)
+    skip_private(ctx, "ObjectBase._get_obj_patches->definitional-gather")
+    o2 = obj_t if obj_t.is_complex() else I.torch.exp(1.0j * obj_t)
+    return o2.reshape(o2.shape[0], -1)[:, idx_t.long()]
+
+
+def propagate_base(I, ctx, a, q):
+    """PtychographyBase._propagate_array; None if that private helper is gone"""
+    f = I.priv["PtychographyBase._propagate_array"]
+    if f is None:
+        skip_private(ctx, "PtychographyBase._propagate_array")
+        return None
+    return f(None, a, q)
 
 
 def f2b(x):
@@ -97,6 +146,31 @@ def carr(rng, shape, amp=2.0, den=16):
     return (re + 1j * im).reshape(shape)
 
 
+VALUE_KINDS = [("random", 8), ("zeros", 1), ("neg-zeros", 1), ("constant", 1), ("delta", 1), ("real-only", 1)]
+
+
+def carr_kind(rng, shape, kind, amp=2.0):
+    """complex array of a structural value class (the last two axes are the image): exact zeros, -0.0, one constant,
+    a single non-zero pixel, purely real -- the classes on which `x or default`, sgn(0), 0/0 and friends differ"""
+    if kind == "random":
+        return carr(rng, shape, amp)
+    x = np.zeros(shape, dtype=np.complex128)
+    if kind == "neg-zeros":
+        x = x - 0.0 - 0.0j
+        x.real[...] = -0.0
+        x.imag[...] = -0.0
+    elif kind == "constant":
+        x[...] = carr(rng, shape[:-2] + (1, 1), amp)
+        x[x == 0] = 1.0
+    elif kind == "delta":
+        flat = x.reshape(-1, shape[-2] * shape[-1])
+        for i in range(flat.shape[0]):
+            flat[i, rng.below(flat.shape[1])] = complex(dy(rng, 0.25, amp), dy(rng, -amp, amp))
+    elif kind == "real-only":
+        x = carr(rng, shape, amp).real + 0j
+    return x
+
+
 def rarr(rng, shape, lo=0.0, hi=2.0, den=16):
     n = int(np.prod(shape))
     return np.array([dy(rng, lo, hi, den) for _ in range(n)], dtype=np.float64).reshape(shape)
@@ -108,10 +182,13 @@ def iarr(rng, shape, lo=-9, hi=9):
 
 
 def gen_shape(rng):
-    k = rng.weighted([("any", 6), ("square", 1), ("oddodd", 1), ("eveneven", 1), ("oddeven", 1), ("pow2", 1)])
+    k = rng.weighted([("any", 6), ("square", 1), ("oddodd", 1), ("eveneven", 1), ("oddeven", 1), ("pow2", 1), ("tiny", 1)])
     nr, nc = rng.randint(3, 12), rng.randint(3, 12)
     if k == "pow2":
         return rng.choice([4, 8]), rng.choice([4, 8])
+    if k == "tiny":      # degenerate axes: length 1 or 2 (fftfreq = [0] / [0, -1/2], fftshift = identity / swap, broadcasting of length-1 axes)
+        a, b = rng.choice([1, 2]), rng.choice([1, 2, 3, 5])
+        return (a, b) if rng.chance(0.5) else (b, a)
     if k == "square":
         nc = nr
     elif k == "oddodd":
@@ -217,12 +294,20 @@ def oracle_propagate(a, K):
 
 def propagate_entry_points(I, ctx):
     """every entry point of the propagation operator in the anchored files"""
-    eps = {"PtychographyBase._propagate_array": lambda a, q: I.Base._propagate_array(None, a, q),
-           "ObjectBase._propagate_array": lambda a, q: I.Obj._propagate_array(None, a, q)}
+    eps = {}
+    for key in ("PtychographyBase._propagate_array", "ObjectBase._propagate_array"):
+        if I.priv[key] is not None:
+            eps[key] = (lambda a, q, f=I.priv[key]: f(None, a, q))
+        else:
+            skip_private(ctx, key)
     p = real_instance(ctx, 1)
     if p is not None:
-        eps["Ptychography()._propagate_array"] = p._propagate_array
-        eps["ObjectPixelated()._propagate_array"] = p.obj_model._propagate_array
+        for nm, owner in (("Ptychography()._propagate_array", p), ("ObjectPixelated()._propagate_array", p.obj_model)):
+            f = getattr(owner, "_propagate_array", None)
+            if callable(f):
+                eps[nm] = f
+            else:
+                skip_private(ctx, nm)
     return eps
 
 
@@ -253,6 +338,10 @@ class Borrow:
 
 class StubInsufficient(Exception):
     pass
+
+
+class PrivateGone(Exception):
+    """a private name this sub-stream depends on no longer exists: the case is skipped with a note"""
 
 
 _INST = {}
@@ -294,16 +383,22 @@ def ptycho_self(I, ctx, num_probes, num_slices, propagators):
     if p is None:
         ctx.dist["self=bare-stub"] += 1
         s = types.SimpleNamespace(num_probes=num_probes, num_slices=num_slices, _propagators=propagators)
-        s._propagate_array = lambda a, q: I.Base._propagate_array(s, a, q)
+        if I.priv["PtychographyBase._propagate_array"] is not None:
+            s._propagate_array = lambda a, q: I.priv["PtychographyBase._propagate_array"](s, a, q)
         s.estimate_amplitudes = lambda *a, **k: I.Base.estimate_amplitudes(s, *a, **k)
         s.fourier_projection = lambda *a, **k: I.Pty.fourier_projection(s, *a, **k)
         s.overlap_projection = lambda *a, **k: I.Base.overlap_projection(s, *a, **k)
         s.gradient_step = lambda *a, **k: I.Pty.gradient_step(s, *a, **k)
         return s
+    if num_slices > 1 and not hasattr(p, "_propagators"):
+        # the multislice cases override the private attribute `_propagators` of a single-slice instance
+        skip_private(ctx, "Ptychography()._propagators")
+        raise PrivateGone("_propagators")
     b = Borrow(p, num_slices=num_slices, _propagators=propagators)
     over = object.__getattribute__(b, "_over")
     # methods that the methods under test call on `self` must see the overrides too
-    over["_propagate_array"] = lambda a, q: I.Base._propagate_array(b, a, q)
+    if I.priv["PtychographyBase._propagate_array"] is not None:
+        over["_propagate_array"] = lambda a, q: I.priv["PtychographyBase._propagate_array"](b, a, q)
     over["overlap_projection"] = lambda *a, **k: I.Base.overlap_projection(b, *a, **k)
     over["estimate_amplitudes"] = lambda *a, **k: I.Base.estimate_amplitudes(b, *a, **k)
     over["fourier_projection"] = lambda *a, **k: I.Pty.fourier_projection(b, *a, **k)
@@ -320,7 +415,18 @@ def raised_in_real_code(exc):
 
 def impl_propagators(I, ctx, nr, nc, sr, sc, energy, thr, thc, num_slices, dzs):
     st = probe_self(I, ctx, (nr, nc), energy, (thr, thc))
-    return I.Probe._compute_propagator_arrays(st, (sr, sc), num_slices, np.asarray(dzs, dtype=np.float64))
+    f = I.priv["ProbeBase._compute_propagator_arrays"]
+    if f is not None:
+        return f(st, (sr, sc), num_slices, np.asarray(dzs, dtype=np.float64))
+    # private helper gone: the public instance-level entry point PtychographyBase.compute_propagator_arrays
+    skip_private(ctx, "ProbeBase._compute_propagator_arrays->public-compute_propagator_arrays")
+    pinst = real_instance(ctx, 1)
+    if pinst is None:
+        raise PrivateGone("_compute_propagator_arrays")
+    bself = Borrow(pinst, probe_model=st, sampling=np.array([sr, sc]), num_slices=num_slices,
+                   slice_thicknesses=np.asarray(dzs, dtype=np.float64), roi_shape=np.array([nr, nc]))
+    I.Base.compute_propagator_arrays(bself)
+    return bself.propagators
 
 
 def gen_physics(rng):
@@ -387,7 +493,7 @@ def s_gs(ctx, drv, I, case):
     idxl = idx.reshape(-1).tolist()
     # ---- gather: ObjectBase._get_obj_patches (complex branch), exact on integer-valued complex128
     try:
-        g = I.Obj._get_obj_patches(None, T(I, obj, torch.complex128), idx_t).numpy()
+        g = get_patches(I, ctx, T(I, obj, torch.complex128), idx_t).numpy()
         g_err = None
     except Exception as e:   # noqa: BLE001
         g, g_err = None, "IndexError"
@@ -537,7 +643,10 @@ def s_shift(ctx, drv, I, case):
     tolp = TOL64 if pkind == "float64" else TOL32      # float32 / integer positions give a complex64 ramp
     ctx.dist[f"shift.pos={'numpy' if use_np else 'torch'}.{pkind}"] += 1
     shape = (nr, nc) if M == 0 else (M, nr, nc)
-    x = rarr(rng, shape, -2, 2) if real_in else carr(rng, shape)
+    vkind = rng.weighted(VALUE_KINDS)
+    x = rarr(rng, shape, -2, 2) if real_in else carr_kind(rng, shape, vkind)
+    ctx.dist[f"shift.values={'real' if real_in else vkind}"] += 1
+    case.update({"values": vkind})
     case.update({"shape": list(shape), "positions": pos.tolist(), "second_shift": tpos.tolist(), "real_input": real_in, "numpy_branch": use_np, "pos_dtype": pkind})
     ctx.count()
     ctx.mark(("shift", psig(nr, nc), M, real_in, use_np, kinds[0], pkind))
@@ -651,7 +760,10 @@ def s_prop(ctx, drv, I, case):
         pred(ctx, "prop-kernel-oracle:PtychographyBase.compute_propagator_arrays", "instance-level propagators != independent Fresnel kernel", case, Q2, OK, TOL32, "propagator vs oracle kernel (instance entry)")
     # propagation of arrays with the real kernels
     M, B = rng.randint(1, 2), rng.randint(1, 2)
-    a = carr(rng, (M, B, nr, nc))
+    vkind = rng.weighted(VALUE_KINDS)
+    a = carr_kind(rng, (M, B, nr, nc), vkind)
+    ctx.dist[f"prop.values={vkind}"] += 1
+    case.update({"values": vkind})
     at = T(I, a, torch.complex128)
     Qt = [T(I, Q[s], torch.complex128) for s in range(4)]
     # every entry point of the propagation operator against the independent ifft2(fft2(a)*K), for P(d) and P(-d)
@@ -670,7 +782,14 @@ def s_prop(ctx, drv, I, case):
                 back_ = eps[n2](T(I, fwd[n1], torch.complex128), Qt[3].clone()).numpy()
                 pred(ctx, f"propagate-cross-inverse:{n2}", f"{n2}({n1}(a, P(d)), P(-d)) != a", case, back_, a, TOL32, "cross-entry-point inverse propagation")
     ctx.dist[f"prop.entry_points={len(eps)}"] += 1
-    p1 = I.Base._propagate_array(None, at, Qt[0])
+    # the identities below go through PtychographyBase._propagate_array; if that private name is gone, through any
+    # surviving entry point of the operator; if none is left the part is skipped (overlap_projection, public, is
+    # compared with an independent multislice oracle in the `forward` stream in any case)
+    prop1 = (lambda a_, q_: propagate_base(I, ctx, a_, q_)) if I.priv["PtychographyBase._propagate_array"] is not None else (eps[names[0]] if names else None)
+    if prop1 is None:
+        skip_private(ctx, "prop.identities:no-propagation-entry-point")
+        return
+    p1 = prop1(at, Qt[0])
     p1n = p1.numpy()
     for m_ in range(M):
         for b in range(B):
@@ -679,10 +798,10 @@ def s_prop(ctx, drv, I, case):
     e0 = np.sum(np.abs(a) ** 2, axis=(-2, -1))
     e1 = np.sum(np.abs(p1n) ** 2, axis=(-2, -1))
     pred(ctx, f"prop-energy:{psig(nr, nc)}", "propagation changes total intensity", case, e1, e0, 1e-5, "propagation energy (complex64 kernel)")
-    p12 = I.Base._propagate_array(None, p1, Qt[1]).numpy()
-    p3 = I.Base._propagate_array(None, at, Qt[2]).numpy()
+    p12 = prop1(p1, Qt[1]).numpy()
+    p3 = prop1(at, Qt[2]).numpy()
     pred(ctx, f"prop-additive:{psig(nr, nc)}", "prop(prop(a,d1),d2) != prop(a,d1+d2)", case, p12, p3, TOL32, "propagation additivity (complex64 kernel)")
-    pinv = I.Base._propagate_array(None, p1, Qt[3]).numpy()
+    pinv = prop1(p1, Qt[3]).numpy()
     pred(ctx, f"prop-inverse:{psig(nr, nc)}", "prop(prop(a,d),-d) != a", case, pinv, a, TOL32, "propagation inverse (complex64 kernel)")
     ctx.sample({k: case[k] for k in ("stream", "rseed", "shape", "sampling", "energy", "tilt", "num_slices", "dz")}, limit=4)
 
@@ -720,7 +839,7 @@ def s_forward(ctx, drv, I, case):
     fract = np.array([[dy(rng, -0.5, 0.5, 64), dy(rng, -0.5, 0.5, 64)] for _ in range(B)])
     # --- the real pipeline pieces, in the order of Ptychography.reconstruct
     obj_t = T(I, obj, torch.float64 if real_obj else torch.complex128)
-    patches = I.Obj._get_obj_patches(None, obj_t, T(I, idx, torch.int64))          # (S,B,nr,nc)
+    patches = get_patches(I, ctx, obj_t, T(I, idx, torch.int64))          # (S,B,nr,nc)
     shifted = I.pu.fourier_shift_expand(T(I, probe, torch.complex128), T(I, fract, torch.float64)).swapaxes(0, 1)   # (M,B,nr,nc)
     props = impl_propagators(I, ctx, nr, nc, sr, sc, energy, thr, thc, S, dzs)
     st = ptycho_self(I, ctx, M, S, props)
@@ -761,14 +880,24 @@ def s_forward(ctx, drv, I, case):
     # --- ObjectPixelated.backward (the object-model entry point of the propagation operator): for pure-phase patches
     #     back-transmitting / back-propagating the exit wave must return the entrance wave (the shifted probes)
     pobj = real_instance(ctx, 1)
-    if purephase and pobj is not None:
+    if pobj is not None and not hasattr(pobj.obj_model, "_obj"):
+        skip_private(ctx, "ObjectPixelated()._obj (backward)")
+    elif pobj is not None:
         oself = Borrow(pobj.obj_model, _obj=torch.nn.Parameter(torch.zeros((S, H, W), dtype=torch.complex128)), num_slices=S, obj_type="complex")
-        oself._over["_propagate_array"] = lambda a_, q_: I.Obj._propagate_array(oself, a_, q_)
+        if I.priv["ObjectBase._propagate_array"] is not None:
+            oself._over["_propagate_array"] = lambda a_, q_: I.priv["ObjectBase._propagate_array"](oself, a_, q_)
         from quantem.diffractive_imaging.object_models import ObjectPixelated
-        back_ = ObjectPixelated.backward(oself, overlap.clone(), patches.clone(), pp.clone(), props.clone() if S > 1 else props, T(I, idx, torch.int64))
-        pred(ctx, f"backward-identity:S{'1' if S == 1 else 'n'}", "ObjectPixelated.backward(exit wave) != entrance wave (pure-phase object: forward then backward is the identity)", case,
-             back_.numpy(), sn, TOL64 if S == 1 else TOL32, "forward-then-backward identity")
-        ctx.dist["forward.backward_identity_checked"] += 1
+        back_ = ObjectPixelated.backward(oself, overlap.clone(), patches.clone(), pp.clone(), props.clone() if S > 1 else props, T(I, idx, torch.int64)).numpy()
+        # the returned gradient against the model's back-transmit / back-propagate chain (Props.backward_forward_identity)
+        for b in range(B):
+            for m_ in range(M):
+                mb = dec_img(ask(drv, {"op": "backward_gradient", "patches": [enc_img(pn[s, b]) for s in range(S)],
+                                       "props": [enc_img(propsn[s]) for s in range(S - 1)], "g": enc_img(on[m_, b])})["ok"])
+                corr(ctx, "backward-gradient", case, mb, back_[m_, b], TOL64)
+        if purephase:
+            pred(ctx, f"backward-identity:S{'1' if S == 1 else 'n'}", "ObjectPixelated.backward(exit wave) != entrance wave (pure-phase object: forward then backward is the identity)", case,
+                 back_, sn, TOL64 if S == 1 else TOL32, "forward-then-backward identity")
+            ctx.dist["forward.backward_identity_checked"] += 1
     # --- predicates
     tot_exit = np.sum(np.abs(on) ** 2, axis=(0, 2, 3))
     pred(ctx, f"detector-parseval:{psig(nr, nc)}", "summed detector intensity != total exit-wave intensity", case, inn.sum(axis=(1, 2)), tot_exit, TOL64, "detector Parseval")
@@ -789,6 +918,9 @@ def s_forward(ctx, drv, I, case):
 
 
 # ----------------------------------------------------------------------------- stream: Fourier projection
+PROJ_FIXED_OKINDS = ["all-zero", "neg-zero", "constant", "delta", "real-only", "zero-mode"]
+
+
 def oracle_amplitudes(P):
     """independent oracle of what the detector sees: fftshift(sqrt(sum_modes |fft2_ortho|^2)); P: (M,B,nr,nc)"""
     F = np.fft.fft2(P, norm="ortho")
@@ -803,12 +935,23 @@ def s_proj(ctx, drv, I, case):
     M, B = rng.weighted([(1, 4), (2, 3), (3, 2)]), rng.randint(1, 2)
     scale = rng.weighted([(1.0, 5), (2.0 ** -10, 2), (2.0 ** -20, 1), (2.0 ** -30, 1)])
     akind = rng.weighted([("random", 4), ("random+zeros", 4), ("from-wave", 2), ("all-zero", 1)])
-    okind = rng.weighted([("random", 8), ("zero-mode", 1), ("all-zero", 1)])
+    okind = rng.weighted([("random", 8), ("zero-mode", 1), ("all-zero", 1), ("neg-zero", 1), ("constant", 1), ("delta", 1), ("real-only", 1)])
+    fx = case.get("fixed")
+    if fx is not None:      # fixed block: every structural exit-wave class x {single, mixed} x {random amplitudes, amplitudes with zeros, all-zero}
+        okind = PROJ_FIXED_OKINDS[fx % len(PROJ_FIXED_OKINDS)]
+        M = [1, 2][(fx // len(PROJ_FIXED_OKINDS)) % 2]
+        akind = ["random", "random+zeros", "all-zero"][(fx // (2 * len(PROJ_FIXED_OKINDS))) % 3]
     x = carr(rng, (M, B, nr, nc)) * scale
     if okind == "zero-mode" and M > 1:
         x[rng.below(M)] = 0
     elif okind == "all-zero":
         x[:] = 0
+    elif okind in ("neg-zero", "constant", "delta", "real-only"):
+        # exactly vanishing Fourier coefficients (all of them / all but DC), a flat far field, a Hermitian far field
+        x = carr_kind(rng, (M, B, nr, nc), {"neg-zero": "neg-zeros"}.get(okind, okind)) * scale
+    # a constant exit wave has exactly-zero (or rounding-level) non-DC coefficients: their phase is not defined, so the
+    # model-vs-implementation comparison is ill-conditioned there; the property predicates do not depend on that phase
+    illcond = okind == "constant"
     if akind == "from-wave":
         A = oracle_amplitudes(carr(rng, (M, B, nr, nc)))
     elif akind == "all-zero":
@@ -821,6 +964,8 @@ def s_proj(ctx, drv, I, case):
                     A.reshape(-1)[i] = 0.0
     sk = "single" if M == 1 else "mixed"
     case.update({"shape": [nr, nc], "modes": M, "batch": B, "overlap_scale": scale, "amp_kind": akind, "overlap_kind": okind})
+    if case.get("fixed") is not None:
+        ctx.dist["proj.fixed_block"] += 1
     ctx.count()
     ctx.mark(("proj", psig(nr, nc), M, akind, okind, scale))
     ctx.dist[f"proj.modes={M}"] += 1
@@ -841,6 +986,9 @@ def s_proj(ctx, drv, I, case):
         mp = ask(drv, {"op": "fourier_projection", "num_probes": M, "A": enc_rows(A[b]), "waves": waves})["ok"]
         mg = ask(drv, {"op": "gradient_step", "num_probes": M, "A": enc_rows(A[b]), "waves": waves})["ok"]
         for m_ in range(M):
+            if illcond:
+                ctx.dist["proj.corr_skipped_illconditioned"] += 1
+                continue
             corr(ctx, f"fourier-projection-{sk}", case, dec_img(mp[m_]), Pn[m_, b], TOL64)
             corr(ctx, f"gradient-step-{sk}", case, dec_img(mg[m_]), Gn[m_, b], TOL64)
     # estimate_amplitudes (eps = 1e-9 inside; used by the loss path, no longer by the projection)
@@ -849,6 +997,14 @@ def s_proj(ctx, drv, I, case):
     for b in range(B):
         me = dec_rows(ask(drv, {"op": "estimate_amplitudes", "waves": [enc_img(x[m_, b]) for m_ in range(M)], "corner": cc})["ok"])
         corr(ctx, "estimate-amplitudes", case, me, ea[b], TOL64)
+    ei = getattr(st, "estimate_intensities", None)
+    if callable(ei):
+        ein = ei(xt.clone()).numpy()
+        for b in range(B):
+            mi = dec_rows(ask(drv, {"op": "estimate_intensities", "waves": [enc_img(x[m_, b]) for m_ in range(M)]})["ok"])
+            corr(ctx, "estimate-intensities", case, mi, ein[b], TOL64)
+        pred(ctx, "estimate-intensities-parseval", "summed estimate_intensities != total exit-wave intensity", case,
+             ein.sum(axis=(1, 2)), np.sum(np.abs(x) ** 2, axis=(0, 2, 3)), TOL64, "estimate_intensities Parseval")
     # --- predicates on the implementation
     obs = oracle_amplitudes(Pn)
     ff_in = oracle_amplitudes(x)
@@ -862,7 +1018,19 @@ def s_proj(ctx, drv, I, case):
     pred(ctx, f"proj-exact-detector:{sk}:{key_par}", "sqrt(DetectorPixelated.forward(projection)) != measured amplitudes", case,
          np.where(good, det, A), A, TOL64, f"projection exactness via detector {sk}")
     P2 = st.fourier_projection(At.clone(), P.clone()).numpy()
-    pred(ctx, f"proj-idempotent:{sk}:{key_par}", "Fourier projection is not idempotent", case, P2, Pn, TOL64, f"projection idempotence {sk}")
+    if illcond and M > 1:
+        # mixed state, constant exit wave: the far field vanishes EXACTLY at some non-DC pixels (the code defines the output as
+        # 0 there) and is rounding noise at others; after one projection the exact zeros are refilled by rounding noise of the
+        # FFT round trip, and the operator is discontinuous at far field = 0 (ill-conditioned point, DESIGN s.3): idempotence is
+        # evaluated in the far field at the pixels whose input far field is not exactly zero, plus finiteness everywhere
+        gm = np.fft.ifftshift(good, axes=(-2, -1))[None]
+        F1, F2 = np.fft.fft2(Pn, norm="ortho"), np.fft.fft2(P2, norm="ortho")
+        pred(ctx, f"proj-idempotent-farfield:{sk}:{key_par}", "Fourier projection is not idempotent (far field, pixels with non-vanishing input far field)", case,
+             np.where(gm, F2, 0), np.where(gm, F1, 0), TOL64, f"projection idempotence {sk} (constant exit wave)")
+        if not (np.isfinite(P2).all() and np.isfinite(Pn).all()):
+            ctx.pred_fail(f"proj-finite:{sk}", "Fourier projection produced NaN / inf", case, observed="non-finite values", required="finite")
+    else:
+        pred(ctx, f"proj-idempotent:{sk}:{key_par}", "Fourier projection is not idempotent", case, P2, Pn, TOL64, f"projection idempotence {sk}")
     ctx.sample({k: case[k] for k in ("stream", "rseed", "shape", "modes", "batch", "overlap_scale", "amp_kind", "overlap_kind")}, limit=6)
 
 
@@ -956,6 +1124,9 @@ def s_instance(ctx, drv, I, case):
         newobj = T(I, (rarr(rng, (1, H, W), 0.25, 2, 16) * np.exp(1j * phi)).astype(np.complex64), torch.complex64)   # amplitude is discarded by the model
     else:
         newobj = T(I, np.exp(1j * phi).astype(np.complex64), torch.complex64)   # complex object that happens to be pure phase
+    if not hasattr(p.obj_model, "_obj"):
+        skip_private(ctx, "ObjectPixelated()._obj (instance forward path)")
+        return
     p.obj_model._obj.data = newobj
     patches = p.obj_model.forward(idx_t)                                   # (1, nb, nr, nc): hard constraints + _get_obj_patches
     fkind = rng.weighted([("float32", 4), ("float64", 2), ("int32", 1), ("int64", 1)])
@@ -1147,7 +1318,7 @@ def _history_body(ctx, I, case, rng, op, k, grad):
             for _ in range(k):
                 a = iarr(rng, (2, H, W)) + (1j * iarr(rng, (2, H, W)) if cplx else 0)
                 objs.append(rg(T(I, a if cplx else a.real / 4.0, tdt)))
-            calls = [((lambda o=o, ix=ix: I.Obj._get_obj_patches(None, o, ix)), [o, ix]) for o, ix in zip(objs, idx_t[:k])]
+            calls = [((lambda o=o, ix=ix: get_patches(I, ctx, o, ix)), [o, ix]) for o, ix in zip(objs, idx_t[:k])]
             kept = run_history(ctx, case, op, calls)
             if kept is None:
                 return
@@ -1216,7 +1387,11 @@ def _history_body(ctx, I, case, rng, op, k, grad):
         xs = [carr(rng, (2, nr, nc)) for _ in range(k)]
         xin = [rg(T(I, x, cdt)) for x in xs]
         which = rng.choice(["base", "obj"])
-        f = (lambda a, q: I.Base._propagate_array(None, a, q)) if which == "base" else (lambda a, q: I.Obj._propagate_array(None, a, q))
+        fp = I.priv["PtychographyBase._propagate_array" if which == "base" else "ObjectBase._propagate_array"]
+        if fp is None:
+            skip_private(ctx, f"history.propagate.{which}")
+            return
+        f = lambda a, q: fp(None, a, q)      # noqa: E731
         kept = run_history(ctx, case, op, [((lambda x=x: f(x, Q[0])), [x, Q]) for x in xin])
         if kept is None:
             return
@@ -1293,6 +1468,502 @@ def _history_body(ctx, I, case, rng, op, k, grad):
                  np.where(good, oracle_amplitudes(P), As[i]), As[i], tol, f"history projection exactness {sk}")
 
 
+
+# ----------------------------------------------------------------------------- public signatures / defaults (pinned)
+REQ = "<required>"
+SIGNATURES = {      # the parameters the model / the streams rely on, in order, with their defaults
+    "pu.fourier_shift_expand": [("array", REQ), ("positions", REQ), ("expand_dim", True)],
+    "pu.fourier_translation_operator": [("positions", REQ), ("shape", REQ), ("expand_dim", True), ("dtype", None)],
+    "pu.sum_patches": [("patches", REQ), ("indices", REQ), ("obj_shape", REQ)],
+    "pu.sum_patches_base": [("patches", REQ), ("indices", REQ), ("obj_shape", REQ)],
+    "Det.forward": [("self", REQ), ("exit_waves", REQ)],
+    "Pty.fourier_projection": [("self", REQ), ("measured_amplitudes", REQ), ("overlap_array", REQ)],
+    "Pty.gradient_step": [("self", REQ), ("amplitudes", REQ), ("overlap", REQ)],
+    "Base.forward_operator": [("self", REQ), ("obj_patches", REQ), ("shifted_input_probes", REQ), ("descan", None)],
+    "Base.overlap_projection": [("self", REQ), ("obj_patches", REQ), ("input_probe", REQ)],
+    "Base.estimate_amplitudes": [("self", REQ), ("overlap_array", REQ), ("corner_centered", False)],
+    "Base.estimate_intensities": [("self", REQ), ("overlap_array", REQ)],
+    "Base.reset_recon": [("self", REQ)],
+}
+
+
+def check_signatures(ctx, I):
+    """public signatures / defaults of the anchored operators: the listed parameters must be there, in this order, with
+    these defaults; FURTHER parameters are tolerated as long as they have a default (a harmless extension)"""
+    import inspect
+    for path, want in SIGNATURES.items():
+        owner, name = path.split(".")
+        f = getattr(getattr(I, owner), name, None)
+        case = {"stream": "signature", "rseed": 0, "function": path}
+        ctx.count()
+        if f is None:
+            ctx.disagree("signature", case, [list(w) for w in want], "missing", f"public operator {path} is gone")
+            continue
+        ps = list(inspect.signature(f).parameters.values())
+        got = [(q.name, REQ if q.default is inspect.Parameter.empty else q.default) for q in ps]
+        ok = len(got) >= len(want) and all(g[0] == w[0] and (g[1] is w[1] or g[1] == w[1]) for g, w in zip(got, want)) \
+            and all(g[1] is not REQ or ps[i + len(want)].kind in (inspect.Parameter.VAR_POSITIONAL, inspect.Parameter.VAR_KEYWORD)
+                    for i, g in enumerate(got[len(want):]))
+        ctx.dist[f"signature.ok={ok}"] += 1
+        if not ok:
+            ctx.disagree("signature", case, [[w[0], repr(w[1])] for w in want], [[g[0], repr(g[1])] for g in got], f"signature / defaults of {path} changed")
+
+
+# ----------------------------------------------------------------------------- stream: histories with RAISING calls
+def exc_name(e):
+    return "IndexError" if isinstance(e, IndexError) else ("RuntimeError" if isinstance(e, RuntimeError) else type(e).__name__)
+
+
+def s_rhist(ctx, drv, I, case):
+    """exception safety: a call is rejected or raises part-way (bad index after some good ones, index set of a larger
+    grid, negative index, length mismatch, wrong shape), the caller carries on with valid calls on the same grid / dtype.
+    EVERY call of the history is compared with the Lean history model (exact integers; error kind included), and every
+    accepted call with an independent oracle (exact adjointness / NumPy oracle); results kept from before the raising
+    call must not change."""
+    from qv.prng import Rng
+    torch = I.torch
+    rng = Rng(case["rseed"])
+    op = rng.weighted([("sum_patches", 6), ("get_obj_patches", 2), ("shift", 1), ("projection", 2), ("propagate", 1), ("detector", 1), ("forward_operator", 1), ("mutate_args", 4)])
+    fx = case.get("fixed")
+    if fx is not None:
+        op = "sum_patches"
+        ctx.dist["rhist.fixed_block"] += 1
+    case.update({"op": op})
+    ctx.count()
+    ctx.dist[f"rhist.op={op}"] += 1
+    if op in ("sum_patches", "get_obj_patches"):
+        H, W = rng.randint(2, 7), rng.randint(2, 7)
+        n = H * W
+        k = rng.randint(3, 7)
+        dt = rng.choice(["int64", "base-float32", "base-float64", "float32", "float64", "complex64", "complex128"]) if op == "sum_patches" \
+            else rng.choice(["complex64", "complex128"])
+        if fx is not None:
+            dt = ["int64", "base-float32", "base-float64", "float32", "float64", "complex64", "complex128"][fx % 7]
+        cplx = dt.startswith("complex")
+        tdt = getattr(torch, dt.replace("base-", ""))
+        itype = rng.choice([torch.int32, torch.int64])
+        fn = I.pu.sum_patches_base if dt in ("int64", "base-float32", "base-float64") else I.pu.sum_patches
+        case.update({"H": H, "W": W, "dtype": dt, "calls": k})
+        kinds, idxs, pats = [], [], []
+        plan = None
+        if fx is not None:      # fixed block: every dtype x {in-range entries then an outside index | index set of a larger grid}, then valid calls
+            plan = [["valid", "oob-partway", "valid", "valid"], ["bigger-grid", "valid", "valid"]][(fx // 7) % 2]
+            k = len(plan)
+            case.update({"calls": k})
+        for j in range(k):
+            kind = plan[j] if plan else ("valid" if j == k - 1 else rng.weighted([("valid", 4), ("oob-partway", 4), ("oob-first", 1), ("bigger-grid", 3), ("negative", 1), ("length", 1)]))
+            if op == "get_obj_patches" and kind == "length":
+                kind = "oob-partway"
+            B, r, c = rng.randint(1, 2), rng.randint(1, 5), rng.randint(1, 5)
+            idx = wrap_indices(rng, H, W, B, r, c) if rng.chance(0.6) else iarr(rng, (B, r, c), 0, n - 1)
+            flat = idx.reshape(-1)
+            if kind == "oob-partway":           # some in-range entries first, then an index outside the grid
+                flat[rng.randint(1, flat.size - 1) if flat.size > 1 else 0] = n + rng.randint(0, 3)
+            elif kind == "oob-first":
+                flat[0] = n + rng.randint(0, 3)
+            elif kind == "bigger-grid":         # an index set computed for a larger (padded) object grid
+                H2, W2 = H + rng.randint(0, 2), W + rng.randint(1, 3)
+                flat[:] = wrap_indices(rng, H2, W2, B, r, c).reshape(-1)
+                if flat.max() < n:
+                    flat[-1] = H2 * W2 - 1
+            elif kind == "negative":
+                flat[rng.below(flat.size)] = -1 - rng.below(n + 2)
+            idx = flat.reshape(B, r, c)
+            pshape = (B, r, c + 1) if kind == "length" else (B, r, c)
+            pw = iarr(rng, pshape) + (1j * iarr(rng, pshape) if cplx else 0)
+            kinds.append(kind)
+            idxs.append(idx)
+            pats.append(pw)
+        case.update({"kinds": kinds})
+        ctx.mark(("rhist", op, dt, tuple(sorted(set(kinds)))))
+        for kd in kinds:
+            ctx.dist[f"rhist.{op}.call={kd}"] += 1
+        x = iarr(rng, (H, W)) + (1j * iarr(rng, (H, W)) if cplx else 0)      # the object the adjoint identity is tested against
+        xi = [complex(int(v.real), int(v.imag)) for v in np.asarray(x, dtype=np.complex128).reshape(-1)]
+        cint = lambda a: [complex(int(round(z.real)), int(round(z.imag))) for z in np.asarray(a, dtype=np.complex128).reshape(-1)]   # noqa: E731
+        if op == "sum_patches":
+            mre = ask(drv, {"op": "scatter_history", "calls": [{"n": n, "patches": np.real(pw).astype(np.int64).reshape(-1).tolist(), "idx": ix.reshape(-1).tolist()} for pw, ix in zip(pats, idxs)]})["ok"]
+            mim = ask(drv, {"op": "scatter_history", "calls": [{"n": n, "patches": np.imag(pw).astype(np.int64).reshape(-1).tolist(), "idx": ix.reshape(-1).tolist()} for pw, ix in zip(pats, idxs)]})["ok"]
+        kept = []
+        for j in range(k):
+            it = T(I, idxs[j], itype)
+            if op == "sum_patches":
+                pt_ = T(I, pats[j] if cplx else pats[j].real, tdt)
+                try:
+                    out, err = fn(pt_, it, (H, W)), None
+                except Exception as e:   # noqa: BLE001
+                    out, err = None, exc_name(e)
+                merr = mre[j].get("err") or mim[j].get("err")
+                if (err or None) != (merr or None):
+                    ctx.disagree("rhist-scatter", case, merr or "ok", err or "ok", f"call {j + 1} of {k} ({kinds[j]}): error behaviour differs from the model")
+                if err is None:
+                    oi = cint(out.numpy())
+                    kept.append((j, out, _bits(_snap(out))))
+                    if merr is None and oi != [complex(a, b) for a, b in zip(mre[j]["ok"], mim[j]["ok"] if cplx else [0] * n)]:
+                        ctx.disagree("rhist-scatter", case, mre[j]["ok"][:24], [v.real for v in oi][:24], f"call {j + 1} of {k} ({kinds[j]}) after {kinds[:j]}: result differs from the model history")
+                    if kinds[j] == "valid":      # the property predicate, exact integers, independent extraction x[idx]
+                        gi = [xi[t] for t in idxs[j].reshape(-1).tolist()]
+                        pj = cint(pats[j])
+                        lhs = sum(a.conjugate() * b for a, b in zip(gi, pj))
+                        rhs = sum(a.conjugate() * b for a, b in zip(xi, oi))
+                        if lhs != rhs:
+                            ctx.pred_fail("adjoint-after-raise:sum_patches", f"<extract(x), p> != <x, sum_patches(p)> for valid call {j + 1} of a history whose earlier calls were {kinds[:j]}", case,
+                                          observed=str(rhs), required=str(lhs))
+                elif kinds[j] == "valid":
+                    ctx.pred_fail("raises-on-valid-after-raise:sum_patches", f"valid call {j + 1} raised after {kinds[:j]}", case, observed=err, required="no error")
+            else:
+                obj2 = np.stack([x, np.conj(x) * 2]) if cplx else np.stack([x.real, x.real * 2])
+                try:
+                    out, err = get_patches(I, ctx, T(I, obj2, tdt), it), None
+                except Exception as e:   # noqa: BLE001
+                    out, err = None, exc_name(e)
+                for sl, part in ((0, np.real), (1, np.imag)):
+                    mg = ask(drv, {"op": "gather_checked_int", "obj": part(obj2[sl]).astype(np.int64).reshape(-1).tolist(), "idx": idxs[j].reshape(-1).tolist()})
+                    if ("err" in mg) != (err is not None):
+                        ctx.disagree("rhist-gather", case, mg.get("err", "ok"), err or "ok", f"call {j + 1} ({kinds[j]}): error behaviour differs from the model")
+                    elif err is None and part(out.numpy()[sl]).reshape(-1).tolist() != [float(v) for v in mg["ok"]]:
+                        ctx.disagree("rhist-gather", case, mg["ok"][:24], part(out.numpy()[sl]).reshape(-1).tolist()[:24], f"call {j + 1} ({kinds[j]}) after {kinds[:j]}")
+                if err is None:
+                    kept.append((j, out, _bits(_snap(out))))
+                    if kinds[j] == "valid":
+                        ref = obj2.reshape(2, -1)[:, idxs[j].reshape(-1)].reshape((2,) + idxs[j].shape)
+                        pred(ctx, "gather-after-raise", f"patches of valid call {j + 1} are not the gather of the object after {kinds[:j]}", case, out.numpy(), ref, 0.0, "gather after raise")
+                elif kinds[j] == "valid":
+                    ctx.pred_fail("raises-on-valid-after-raise:get_obj_patches", f"valid call {j + 1} raised after {kinds[:j]}", case, observed=err, required="no error")
+        for j, out, bits in kept:
+            if _bits(out) != bits:
+                ctx.pred_fail(f"history-result-changed:{op}", f"{op}: the result of call {j + 1} changed after later (raising / valid) calls", case,
+                              observed="kept result differs bitwise from its clone", required="returned results never change")
+        ctx.sample({kk: case[kk] for kk in ("stream", "rseed", "op", "H", "W", "dtype", "kinds")}, limit=9)
+        return
+    # ---- stateless float operators: valid call, a call that raises, the same valid call again
+    nr, nc = gen_shape(rng)
+    M, B = rng.randint(1, 3), rng.randint(1, 2)
+    case.update({"shape": [nr, nc], "modes": M})
+    ctx.mark(("rhist", op, psig(nr, nc), M))
+    if op == "mutate_args":
+        # build, derive, mutate the parent IN PLACE, derive again: the SAME argument objects (same id / data_ptr, as the
+        # optimiser updates descan shifts / positions / amplitudes in place) are given new values between calls; every
+        # call must equal the call on fresh clones of the current values and satisfy its identity against an oracle
+        which = rng.choice(["translation", "shift", "forward_operator", "projection", "sum_patches"])
+        case.update({"which": which})
+        ctx.dist[f"rhist.mutate_args.{which}"] += 1
+        gpos = lambda: np.array([[dy(rng, -3, 3, 64), dy(rng, -3, 3, 64)] for _ in range(B)])      # noqa: E731
+        if which == "translation":
+            gens = [gpos]
+            args = [T(I, gpos(), torch.float64)]
+            f = lambda pos: I.pu.fourier_translation_operator(pos, (nr, nc))      # noqa: E731
+            chk = lambda out, a: pred(ctx, "ramp-oracle-after-inplace-update", "translation operator of an in-place updated position tensor != independent ramp", case,      # noqa: E731
+                                      out.numpy(), oracle_ramp(nr, nc, a[0].numpy()), TOL32, "ramp after in-place update")
+        elif which == "shift":
+            gens = [lambda: carr(rng, (M, nr, nc)), gpos]
+            args = [T(I, gens[0](), torch.complex128), T(I, gpos(), torch.float64)]
+            f = lambda x_, pos: I.pu.fourier_shift_expand(x_, pos)      # noqa: E731
+            chk = lambda out, a: pred(ctx, "shift-oracle-after-inplace-update", "fourier_shift_expand of in-place updated arguments != independent shift", case,      # noqa: E731
+                                      out.numpy(), oracle_shift(a[0].numpy(), a[1].numpy()), TOL32, "shift after in-place update")
+        elif which == "forward_operator":
+            st = real_instance(ctx, M, (nr, nc)) if (nr, nc) in INST_SHAPES else real_instance(ctx, M, INST_SHAPES[rng.below(len(INST_SHAPES))])
+            if st is None:
+                return
+            r0_, c0_ = (int(v) for v in st.roi_shape)
+            gens = [lambda: np.exp(1j * rarr(rng, (1, B, r0_, c0_), -3, 3, 64)), lambda: carr(rng, (M, B, r0_, c0_)), gpos]
+            args = [T(I, gens[0](), torch.complex128), T(I, gens[1](), torch.complex128), T(I, gpos(), torch.float64)]
+            f = lambda pa, pr, ds: st.forward_operator(pa.clone(), pr.clone(), ds)[1]      # noqa: E731  (descan: the same object every time)
+            chk = lambda out, a: pred(ctx, "forward-operator-oracle-after-inplace-update", "exit wave for an in-place updated descan tensor != patches*probes*independent ramp", case,      # noqa: E731
+                                      out.numpy(), a[0].numpy()[0][None] * a[1].numpy() * oracle_ramp(r0_, c0_, a[2].numpy())[None], TOL32, "forward_operator after in-place update")
+        elif which == "projection":
+            st = real_instance(ctx, M) or ptycho_self(I, ctx, M, 1, None)
+            gens = [lambda: rarr(rng, (B, nr, nc), 0, 2), lambda: carr(rng, (M, B, nr, nc))]
+            args = [T(I, gens[0](), torch.float64), T(I, gens[1](), torch.complex128)]
+            f = lambda A_, x_: st.fourier_projection(A_, x_)      # noqa: E731
+            chk = lambda out, a: pred(ctx, f"proj-exact-after-inplace-update:{'single' if M == 1 else 'mixed'}", "Fourier projection of in-place updated amplitudes does not return them", case,      # noqa: E731
+                                      np.where(np.ones_like(a[0].numpy(), dtype=bool) if M == 1 else (oracle_amplitudes(a[1].numpy()) != 0), oracle_amplitudes(out.numpy()), a[0].numpy()), a[0].numpy(), TOL64, "projection after in-place update")
+        else:
+            H, W = rng.randint(2, 6), rng.randint(2, 6)
+            gens = [lambda: iarr(rng, (B, nr, nc)).astype(np.float64), lambda: iarr(rng, (B, nr, nc), 0, H * W - 1)]
+            args = [T(I, gens[0](), torch.float64), T(I, gens[1](), torch.int64)]
+            f = lambda p_, ix: I.pu.sum_patches(p_, ix, (H, W))      # noqa: E731
+
+            def chk(out, a):
+                ref = np.zeros(H * W)
+                np.add.at(ref, a[1].numpy().reshape(-1), a[0].numpy().reshape(-1))
+                pred(ctx, "scatter-oracle-after-inplace-update", "sum_patches of in-place updated arguments != independent np.add.at scatter", case, out.numpy().reshape(-1), ref, 0.0, "scatter after in-place update")
+        for step in range(rng.randint(2, 3)):
+            if step:
+                for a_, g_ in zip(args, gens):
+                    a_.copy_(T(I, g_(), a_.dtype))      # same objects, new values
+            out = f(*args)
+            fresh = f(*[a_.clone() for a_ in args])
+            if _bits(out) != _bits(fresh):
+                ctx.pred_fail(f"stale-after-inplace-update:{which}", f"{which}: call {step + 1} on in-place updated argument objects differs from the same call on fresh clones (stale cached value)", case,
+                              observed="bitwise difference", required="identical results")
+            chk(out, args)
+        ctx.sample({kk: case[kk] for kk in ("stream", "rseed", "op", "which", "shape", "modes")}, limit=12)
+        return
+    if op == "shift":
+        x, pos = T(I, carr(rng, (M, nr, nc)), torch.complex128), np.array([[dy(rng, -4, 4, 64), dy(rng, -4, 4, 64)] for _ in range(B)])
+        valid = lambda: I.pu.fourier_shift_expand(x, T(I, pos, torch.float64))      # noqa: E731
+        bad = lambda: I.pu.fourier_shift_expand(x, T(I, pos[0], torch.float64))     # noqa: E731  1-D positions
+        oracle = lambda out: pred(ctx, "shift-oracle-after-raise", "fourier_shift_expand after a rejected call != independent Fourier shift", case, out.numpy(), oracle_shift(x.numpy(), pos), TOL32, "shift after raise")   # noqa: E731
+    elif op == "projection":
+        st = real_instance(ctx, M) or ptycho_self(I, ctx, M, 1, None)
+        A, xx = rarr(rng, (B, nr, nc), 0, 2), carr(rng, (M, B, nr, nc))
+        At, xt = T(I, A, torch.float64), T(I, xx, torch.complex128)
+        valid = lambda: st.fourier_projection(At.clone(), xt.clone())      # noqa: E731
+        bad = lambda: st.fourier_projection(T(I, rarr(rng, (B, nr + 1, nc + 2), 0, 2), torch.float64), xt.clone())      # noqa: E731
+        good = np.ones_like(A, dtype=bool) if M == 1 else (oracle_amplitudes(xx) != 0)
+        oracle = lambda out: pred(ctx, f"proj-exact-after-raise:{'single' if M == 1 else 'mixed'}", "Fourier projection after a rejected call does not return the measured amplitudes", case,   # noqa: E731
+                                  np.where(good, oracle_amplitudes(out.numpy()), A), A, TOL64, "projection exactness after raise")
+    elif op == "propagate":
+        names = [kk for kk in ("PtychographyBase._propagate_array", "ObjectBase._propagate_array") if I.priv[kk] is not None]
+        if not names:
+            skip_private(ctx, "rhist.propagate")
+            return
+        f = I.priv[rng.choice(names)]
+        sr, sc, energy, thr, thc = gen_physics(rng)
+        Q = impl_propagators(I, ctx, nr, nc, sr, sc, energy, thr, thc, 2, [dy(rng, 1, 12, 8)]).to(torch.complex128)
+        a = T(I, carr(rng, (M, B, nr, nc)), torch.complex128)
+        valid = lambda: f(None, a, Q[0])      # noqa: E731
+        bad = lambda: f(None, a, torch.ones((nr + 1, nc + 2), dtype=torch.complex128))      # noqa: E731
+        oracle = lambda out: pred(ctx, "propagate-oracle-after-raise", "propagation after a rejected call != independent ifft2(fft2(a)*P)", case, out.numpy(), oracle_propagate(a.numpy(), Q[0].numpy()), TOL64, "propagate after raise")   # noqa: E731
+    elif op == "detector":
+        det = I.Det()
+        w = T(I, carr(rng, (M, B, nr, nc)), torch.complex128)
+        valid = lambda: det.forward(w)      # noqa: E731
+        bad = lambda: det.forward(torch.ones(3, dtype=torch.complex128))      # noqa: E731  1-D: no last two axes
+        oracle = lambda out: pred(ctx, "detector-parseval-after-raise", "detector after a rejected call: summed intensity != exit-wave intensity", case,   # noqa: E731
+                                  out.numpy().sum(axis=(1, 2)), np.sum(np.abs(w.numpy()) ** 2, axis=(0, 2, 3)), TOL64, "detector after raise")
+    else:
+        st = real_instance(ctx, M, (nr, nc))
+        if st is None:
+            return
+        pat = T(I, np.exp(1j * rarr(rng, (1, B, nr, nc), -3, 3, 64)), torch.complex128)
+        prb = T(I, carr(rng, (M, B, nr, nc)), torch.complex128)
+        dsc = T(I, np.array([[dy(rng, -2, 2, 64), dy(rng, -2, 2, 64)] for _ in range(B)]), torch.float64)
+        valid = lambda: st.forward_operator(pat.clone(), prb.clone(), dsc.clone())[1]      # noqa: E731
+        bad = lambda: st.forward_operator(pat.clone(), prb.clone(), torch.zeros((B + 2, 2), dtype=torch.float64))[1]      # noqa: E731  descan for a different batch
+        oracle = lambda out: pred(ctx, "purephase-energy-after-raise", "exit wave after a rejected forward_operator call does not carry the probe intensity (pure-phase patches)", case,   # noqa: E731
+                                  np.sum(np.abs(out.numpy()) ** 2, axis=(0, 2, 3)), np.sum(np.abs(prb.numpy()) ** 2, axis=(0, 2, 3)), TOL32, "pure-phase energy after raise")
+    r0 = valid()
+    b0 = _bits(_snap(r0))
+    try:
+        bad()
+        ctx.dist[f"rhist.{op}.bad-call=accepted"] += 1
+    except Exception as e:   # noqa: BLE001
+        ctx.dist[f"rhist.{op}.bad-call={exc_name(e)}"] += 1
+    r1 = valid()
+    if _bits(r1) != b0 or _bits(r0) != b0:
+        ctx.pred_fail(f"result-differs-after-raise:{op}", f"{op}: the same valid call gives a different result after a rejected call (or the kept result changed)", case,
+                      observed="bitwise difference", required="identical results")
+    oracle(r1)
+    ctx.sample({kk: case[kk] for kk in ("stream", "rseed", "op", "shape", "modes")}, limit=10)
+
+
+# ----------------------------------------------------------------------------- stream: reset / configure / reset sessions
+def ctext(v):
+    """canonical text of a constraint value (what the Lean session model stores)"""
+    if v is None or isinstance(v, (bool, int, float, str)):
+        return repr(v) if not isinstance(v, str) else v
+    if hasattr(v, "item") and getattr(v, "ndim", 1) == 0:
+        return repr(v.item())
+    return f"<{type(v).__name__}>"
+
+
+def cdict(d):
+    return [[str(k), ctext(v)] for k, v in d.items()]
+
+
+OBJ_VALUES = {"gaussian_sigma": [None, 0.5, 1.0, 2.0], "q_lowpass": [None, 0, 0.0, 0.35], "q_highpass": [None, 0.0, 0.05],
+              "identical_slices": [False, True], "apply_fov_mask": [False, True], "tv_weight_xy": [0, 0.1], "tv_weight_z": [0, 0.2],
+              "positivity": [True, False], "butterworth_order": [4, 2], "surface_zero_weight": [0, 0.5]}
+OTHER_VALUES = {"probe": {"orthogonalize_probe": [True, False], "center_probe": [False, True], "tv_weight": [0.0, 0.1]},
+                "dataset": {"descan_tv_weight": [0.0, 0.1], "descan_shifts_constant": [False, True]}}
+_SESSION_DEFAULTS = {}
+SESSION_FIXED_KEYS = [("gaussian_sigma", 2.0), ("q_lowpass", 0.35), ("q_highpass", 0.05)]
+
+
+def forward_energy(ctx, I, p, rng, case, tag, obj_type):
+    """random pure-phase object state -> the real forward path -> unit-modulus patches and per-pattern energy"""
+    torch = I.torch
+    if not hasattr(p.obj_model, "_obj"):
+        skip_private(ctx, "ObjectPixelated()._obj (session forward)")
+        return
+    idx_t = p.dset.patch_indices
+    nb = idx_t.shape[0]
+    H, W = (int(v) for v in p.obj_shape_full[-2:])
+    phi = rarr(rng, (1, H, W), 0, 3, 64).astype(np.float32)
+    if obj_type == "potential":
+        newobj = T(I, phi, torch.float32)
+    else:
+        newobj = T(I, (rarr(rng, (1, H, W), 0.25, 2, 16) * np.exp(1j * phi)).astype(np.complex64), torch.complex64)
+    p.obj_model._obj.data = newobj
+    patches = p.obj_model.forward(idx_t)
+    fract = T(I, np.array([[dy(rng, -0.5, 0.5, 64), dy(rng, -0.5, 0.5, 64)] for _ in range(nb)]), torch.float32)
+    shifted = p.probe_model.forward(fract)
+    descan = None if rng.chance(0.5) else T(I, np.array([[dy(rng, -2, 2, 64), dy(rng, -2, 2, 64)] for _ in range(nb)]), torch.float32)
+    _pp, overlap = p.forward_operator(patches.clone(), shifted.clone(), descan)
+    inten = p.detector_model.forward(overlap).detach().numpy().astype(np.float64)
+    amp = np.abs(patches.detach().numpy().astype(np.complex128))
+    ptot = float(np.sum(np.abs(p.probe_model.probe.detach().numpy().astype(np.complex128)) ** 2))
+    pred(ctx, f"session-purephase-patches:{obj_type}:{tag}", "patches of a pure-phase object model under modulus-neutral (default) constraints are not unit modulus", case,
+         amp, np.ones_like(amp), 1e-5, "session |obj patch|=1")
+    pred(ctx, f"session-purephase-energy:{obj_type}:{tag}", "summed predicted diffraction intensity != probe total intensity (pure-phase object, constraints restored by reset_recon / fresh model)", case,
+         inten.sum(axis=(1, 2)) / ptot, np.ones(nb), TOL32, "session pure-phase energy (float32)")
+    ctx.dist[f"session.forward_checked:{tag}"] += 1
+
+
+def s_session(ctx, drv, I, case):
+    """histories of reset_recon / constraints setters (accepted and rejected with KeyError, partial writes included) on
+    a real pure-phase reconstruction: the constraint dictionaries after EVERY operation against the Lean session model
+    (Props.reset_restores_defaults), and whenever the model says the constraints in force keep a pure-phase object's
+    modulus (after a reset, on a fresh model) the energy clause on the real forward path."""
+    import warnings
+    from qv.prng import Rng
+    from props import ptycho_tiny as pt
+    rng = Rng(case["rseed"])
+    nr, nc = rng.choice(INST_SHAPES)
+    M = rng.randint(1, 3)
+    obj_type = rng.weighted([("pure_phase", 3), ("potential", 1)])
+    if case.get("fixed") is not None:
+        obj_type = "pure_phase"
+        ctx.dist["session.fixed_block"] += 1
+    p = real_instance(ctx, M, (nr, nc), obj_type, cache=False, seed=rng.randint(0, 50), rng_seed=rng.randint(0, 50), scan=(2, rng.randint(2, 3)))
+    ctx.count()
+    if p is None:
+        return
+    if not _SESSION_DEFAULTS:      # the defaults as the classes state them before the first session of this run
+        _SESSION_DEFAULTS.update({"object": cdict(type(p.obj_model).DEFAULT_CONSTRAINTS), "probe": cdict(type(p.probe_model).DEFAULT_CONSTRAINTS),
+                                  "dataset": cdict(type(p.dset).DEFAULT_CONSTRAINTS)})
+    D = _SESSION_DEFAULTS
+    okeys = [k for k, _ in D["object"]]
+
+    def obj_items(nmax=3, bad=False):
+        ks = [k for k in OBJ_VALUES if k in okeys]
+        items = [(k, rng.choice(OBJ_VALUES[k])) for k in rng.sample(ks, min(len(ks), rng.randint(1, nmax)))]
+        if rng.chance(0.5) and "gaussian_sigma" in okeys:      # the modulus-changing keys more often
+            items.insert(rng.below(len(items) + 1), (rng.choice([k for k in ("gaussian_sigma", "q_lowpass", "q_highpass") if k in okeys]), rng.choice([0.5, 1.0, 0.35])))
+        if bad:
+            items.insert(rng.below(len(items) + 1), (rng.choice(["bogus", "gaussian_sigma_px", "tv_weight"]), 1))
+        return items
+
+    ops, mops = [], []
+    mitems = lambda d: [[a, ctext(b)] for a, b in d.items()]      # noqa: E731
+
+    def add(kind, payload=None):
+        """append one operation (real call description + the model operations it stands for)"""
+        if kind == "reset":
+            ops.append(("reset",))
+            mops.append([{"k": "reset"}])
+        elif kind in ("ptycho_set", "reconstruct", "reconstruct_reset", "reconstruct_reset_empty"):
+            entries = list(payload or [])
+            ops.append((kind, entries))
+            m = [{"k": "ptycho_set", "entries": [dict(cat=c, **({"items": mitems(v)} if isinstance(v, dict) else {})) for c, v in entries]}]
+            mops.append(([{"k": "reset"}] if kind.startswith("reconstruct_reset") else []) + m)
+        elif kind == "obj_set":
+            ops.append(("obj_set", dict(payload)))
+            mops.append([{"k": "obj_set", "items": mitems(dict(payload))}])
+        else:
+            ops.append(("obj_add", payload[0], payload[1]))
+            mops.append([{"k": "obj_add", "key": payload[0], "value": ctext(payload[1])}])
+
+    fx = case.get("fixed")
+    if fx is not None:
+        # fixed block (independent of the seed): reset -> set a modulus-changing object constraint through every setter ->
+        # reset, the shorter history set -> reset, and the same with a rejected (partially written) dict in between
+        key, val = SESSION_FIXED_KEYS[fx % len(SESSION_FIXED_KEYS)]
+        setter = ["ptycho_set", "obj_add", "obj_set", "reconstruct", "reconstruct_reset"][(fx // len(SESSION_FIXED_KEYS)) % 5]
+        variant = (fx // (5 * len(SESSION_FIXED_KEYS))) % 3
+        if key not in okeys:
+            return
+        if variant != 1:
+            add("reset")
+        if setter == "obj_add":
+            add("obj_add", (key, val))
+        elif setter == "obj_set":
+            add("obj_set", {key: val})
+        else:
+            add(setter, [("object", {key: val})])
+        if variant == 2:
+            add("ptycho_set", [("object", {"tv_weight_xy": 0.1, "bogus": 1, key: None})])
+        add("reset")
+    else:
+        k = rng.randint(2, 7)
+        for j in range(k):
+            kind = rng.weighted([("reset", 4), ("ptycho_set", 4), ("ptycho_set_multi", 2), ("obj_set", 1), ("obj_add", 1), ("obj_add_bad", 1), ("reconstruct_reset", 1), ("reconstruct", 1)])
+            if j == k - 1 and rng.chance(0.6):
+                kind = rng.choice(["reset", "reset", "reconstruct_reset_empty"])
+            if kind == "reset":
+                add("reset")
+            elif kind in ("ptycho_set", "reconstruct", "reconstruct_reset", "reconstruct_reset_empty"):
+                items = [] if kind.endswith("empty") else obj_items(bad=rng.chance(0.25))
+                add(kind, [("object", dict(items))] if items else [])
+            elif kind == "ptycho_set_multi":
+                entries = []
+                for cat in rng.sample(["object", "probe", "dataset", "detector", "objectx"], rng.randint(2, 4)):
+                    if cat == "object":
+                        entries.append((cat, dict(obj_items(bad=rng.chance(0.3))) if rng.chance(0.85) else 3))
+                    elif cat in OTHER_VALUES:
+                        vals = OTHER_VALUES[cat]
+                        d = {kk: rng.choice(vals[kk]) for kk in rng.sample(sorted(vals), rng.randint(1, 2)) if any(kk == q for q, _ in D[cat])}
+                        if rng.chance(0.2):
+                            d["bogus"] = 0
+                        entries.append((cat, d))
+                    else:
+                        entries.append((cat, {} if rng.chance(0.7) else None))
+                add("ptycho_set", entries)
+            elif kind == "obj_set":
+                add("obj_set", dict(obj_items(bad=rng.chance(0.3))))
+            else:
+                key = rng.choice(["bogus", "tv_weight"]) if kind == "obj_add_bad" else rng.choice([kk for kk in OBJ_VALUES if kk in okeys])
+                add("obj_add", (key, 1 if kind == "obj_add_bad" else rng.choice(OBJ_VALUES[key])))
+    case.update({"shape": [nr, nc], "modes": M, "obj_type": obj_type, "ops": [[o[0]] + [str(a) for a in o[1:]] for o in ops]})
+    ctx.mark(("session", obj_type, tuple(o[0] for o in ops)))
+    for o in ops:
+        ctx.dist[f"session.op={o[0]}"] += 1
+    flat = [m for grp in mops for m in grp]
+    mres = ask(drv, {"op": "session", "obj_defaults": D["object"], "probe_defaults": D["probe"], "dset_defaults": D["dataset"], "num_slices": int(p.num_slices), "ops": flat})["ok"]
+    # the fresh instance must start from the defaults
+    if cdict(p.obj_model.constraints) != D["object"]:
+        ctx.disagree("session-constraints", case, D["object"], cdict(p.obj_model.constraints), "a freshly built object model does not start from the default constraints")
+    pos = 0
+    with warnings.catch_warnings(), pt.no_gc():
+        warnings.simplefilter("ignore")
+        for j, (o, grp) in enumerate(zip(ops, mops)):
+            raised = None
+            try:
+                if o[0] == "reset":
+                    p.reset_recon()
+                elif o[0] == "ptycho_set":
+                    p.constraints = dict(o[1])
+                elif o[0].startswith("reconstruct"):
+                    p.reconstruct(num_iters=0, reset=o[0].startswith("reconstruct_reset"), constraints=dict(o[1]))
+                elif o[0] == "obj_set":
+                    p.obj_model.constraints = dict(o[1])
+                else:
+                    p.obj_model.add_constraint(o[1], o[2])
+            except KeyError:
+                raised = "KeyError"
+            pos += len(grp)
+            m = mres[pos - 1]
+            m_raised = any(mres[q]["raised"] for q in range(pos - len(grp), pos))
+            ctx.dist[f"session.raised={raised is not None}"] += 1
+            got = {"raised": raised is not None, "obj": cdict(p.obj_model.constraints), "probe": cdict(p.probe_model.constraints), "dset": cdict(p.dset.constraints)}
+            want = {"raised": m_raised, "obj": m["obj"], "probe": m["probe"], "dset": m["dset"]}
+            if got != want:
+                ctx.disagree("session-constraints", case, want, got, f"after operation {j + 1} of {len(ops)} ({o[0]}): constraint dictionaries / KeyError behaviour differ from the session model")
+            # the energy clause whenever the MODEL says the constraints in force keep the modulus of a pure-phase object
+            if m["neutral"] and (o[0] in ("reset", "reconstruct_reset_empty") or (j == len(ops) - 1) or rng.chance(0.3)):
+                forward_energy(ctx, I, p, rng, case, "after-reset" if o[0] in ("reset", "reconstruct_reset_empty") else "neutral-constraints", obj_type)
+        if rng.chance(0.4):      # a model built AFTER the history starts from the defaults as well
+            p2 = real_instance(ctx, M, (nr, nc), obj_type, cache=False, seed=1, rng_seed=1, scan=(2, 2))
+            if p2 is not None:
+                if cdict(p2.obj_model.constraints) != D["object"]:
+                    ctx.disagree("session-constraints", case, D["object"], cdict(p2.obj_model.constraints), "an object model built after the history does not start from the default constraints")
+                if all(mm["neutral"] for mm in mres[:1]) and ask(drv, {"op": "session", "obj_defaults": D["object"], "probe_defaults": D["probe"], "dset_defaults": D["dataset"], "num_slices": 1, "ops": [{"k": "reset"}]})["ok"][0]["neutral"]:
+                    forward_energy(ctx, I, p2, rng, case, "fresh-model-after-history", obj_type)
+    ctx.sample({kk: case[kk] for kk in ("stream", "rseed", "shape", "modes", "obj_type", "ops")}, limit=11)
+
+
 STREAMS = {           # name: (function, quick count, thorough count)
     "gs": (s_gs, 250, 4000),
     "shiftint": (s_shiftint, 100, 1500),
@@ -1302,7 +1973,12 @@ STREAMS = {           # name: (function, quick count, thorough count)
     "proj": (s_proj, 200, 3000),
     "instance": (s_instance, 50, 600),
     "history": (s_history, 130, 2500),
+    "rhist": (s_rhist, 90, 2000),
+    "session": (s_session, 30, 800),
 }
+
+
+FIXED = {"proj": 36, "rhist": 14, "session": 45}      # sizes of the fixed (seed-independent) blocks
 
 
 def run_case(ctx, drv, I, name, case):
@@ -1311,6 +1987,8 @@ def run_case(ctx, drv, I, name, case):
     fn = STREAMS[name][0]
     try:
         fn(ctx, drv, I, case)
+    except PrivateGone as e:
+        ctx.dist[f"skipped:private-name-gone:{name}:{e}"] += 1
     except Exception as e:   # noqa: BLE001
         if not raised_in_real_code(e):
             raise
@@ -1325,12 +2003,19 @@ def run_case(ctx, drv, I, name, case):
 
 def run(ctx):
     from qv.driver import Driver
-    I = _imports()
+    I = resolve_private(_imports(), ctx)
     I.torch.set_grad_enabled(False)
     _INST.clear()
     drv = Driver("C16")
     try:
+        import os
+        only = [x for x in os.environ.get("C16_ONLY", "").split(",") if x]      # development knob; the registered check runs everything
+        check_signatures(ctx, I)
         for name, (fn, nq, nt) in STREAMS.items():
+            if only and name not in only:
+                continue
+            for i in range(FIXED.get(name, 0)):      # fixed blocks: the same enumerated input classes for every seed
+                run_case(ctx, drv, I, name, {"stream": name, "rseed": 1000003 * (i + 1), "fixed": i})
             for i in range(ctx.n(nq, nt)):
                 case = {"stream": name, "rseed": ctx.rng.next()}
                 run_case(ctx, drv, I, name, case)
@@ -1338,11 +2023,12 @@ def run(ctx):
         drv.close()
         I.torch.set_grad_enabled(True)
         _INST.clear()
+        _SESSION_DEFAULTS.clear()
 
 
 def replay(ctx, rep):
     from qv.driver import Driver
-    I = _imports()
+    I = resolve_private(_imports(), ctx)
     I.torch.set_grad_enabled(False)
     case = rep.get("case") or (rep.get("correspondence_disagreements") or rep.get("disagreements") or [{}])[0].get("case")
     if not case:
@@ -1350,7 +2036,10 @@ def replay(ctx, rep):
     _INST.clear()
     drv = Driver("C16")
     try:
-        run_case(ctx, drv, I, case["stream"], {"stream": case["stream"], "rseed": case["rseed"]})
+        if case["stream"] == "signature":
+            check_signatures(ctx, I)
+        else:
+            run_case(ctx, drv, I, case["stream"], {k: case[k] for k in ("stream", "rseed", "fixed") if k in case})
     finally:
         drv.close()
         I.torch.set_grad_enabled(True)
